@@ -167,6 +167,10 @@ def det_runs(ctx):
         "schema": [ol.TLS / "schema.tl"],
         "test12": [REPO / "cmd/tl2client/test.tl", REPO / "cmd/tl2client/test.tl2"],
     }
+    # own corpus: generics (pair, triple, vector, Maybe, dictionary, tuple, nested) instantiated over 2-3 namespaces
+    # in several combinations and referenced from different namespaces, spread over 5 files in 3 directory levels.
+    # Repository schemas have no such instantiation; the placement of these instances is a namespace decision.
+    shutil.copytree(VERIF / "corpus" / "C15" / "nsgen", work / "sch" / "nsgen")
     for name, files in sets.items():
         d = work / "sch" / name
         (d / "sub").mkdir(parents=True)
@@ -181,6 +185,15 @@ def det_runs(ctx):
         ("tl2gen:go:split", tl2gen, go_common + ["--split-internal", "--tl2WhiteList=*", "--generateByteVersions=ch_proxy.,ab."], "goldmaster", "dir"),
         ("tl2gen:go:nosplit", tl2gen, go_common + ["--generateByteVersions=cases_bytes.", "--checkLengthSanity=false"], "cases", "dir"),
         ("tl2gen:go:tl2", tl2gen, go_common + ["--tl2WhiteList=*", "--split-internal"], "test12", "dir"),
+        ("tl2gen:go:nsgen", tl2gen, go_common, "nsgen", "dir"),
+        ("tl2gen:go:nsgen:split", tl2gen, go_common + ["--split-internal"], "nsgen", "dir"),
+        ("tl2gen:go:nsgen:tl2", tl2gen, go_common + ["--tl2WhiteList=*"], "nsgen", "dir"),
+        ("tl2gen:go:nsgen:split+tl2", tl2gen, go_common + ["--split-internal", "--tl2WhiteList=*", "--generateByteVersions=*"], "nsgen", "dir"),
+        ("tl2gen:php:nsgen", tl2gen, ["--language=php", "--php-use-builtin-data-providers", "--php-serialization-bodies", "--php-generate-meta", "--php-generate-factory"], "nsgen", "dir"),
+        ("tl2gen:rust:nsgen", tl2gen, ["--language=rust", "--tl2WhiteList=*"] + meta, "nsgen", "dir"),
+        ("tl2gen:canonical:nsgen", tl2gen, ["--language=canonical"], "nsgen", "file"),
+        ("tlgen:cpp:nsgen", tlgen, ["--language=cpp", "--cpp-generate-meta=true", "--cpp-generate-factory=true", "--schemaTimestamp=301822800"], "nsgen", "dir"),
+        ("tlgen:php:nsgen", tlgen, ["--language=php", "--php-serialization-bodies", "--schemaTimestamp=301822800"], "nsgen", "dir"),
         ("tl2gen:php", tl2gen, ["--language=php", "--php-use-builtin-data-providers", "--php-serialization-bodies", "--php-generate-meta", "--php-generate-factory"], "cases", "dir"),
         ("tl2gen:tlo", tl2gen, ["--language=tlo", "--schemaTimestamp=301822800"], "goldmaster", "file"),
         ("tl2gen:canonical", tl2gen, ["--language=canonical"], "goldmaster", "file"),
@@ -200,7 +213,7 @@ def det_runs(ctx):
             ("tlgen:cpp:schema", tlgen, ["--language=cpp", "--schemaTimestamp=301822800"], "schema", "dir"),
             ("tl2gen:tlo:schema", tl2gen, ["--language=tlo", "--schemaTimestamp=301822800"], "schema", "file"),
         ]
-    k = 3 if quick else 12
+    k = 6 if quick else 12   # a 50/50 map-order choice survives 6 runs with probability 1/32
     procs = [1, 2, 16] if quick else [1, 2, 3, 16]
     runs = 0
     stats = {}
